@@ -35,6 +35,19 @@ def _module_state(ctx: Ctx) -> Dict[Tuple[str, str], List[str]]:
         globals_declared = {n for node in body_walk(f.node) if isinstance(node, ast.Global) for n in node.names}
         local_stores = {n.id for n in body_walk(f.node) if isinstance(n, ast.Name) and isinstance(n.ctx, ast.Store)} | set(f.param_names())
         shadow = local_stores - globals_declared
+        # a local that is nothing but another name for a module-level object: x = TABLE ; x.insert(...) changes TABLE
+        alias: Dict[str, str] = {}
+        for node in body_walk(f.node):
+            if isinstance(node, ast.Assign) and len(node.targets) == 1 and isinstance(node.targets[0], ast.Name) and isinstance(node.value, ast.Name) \
+                    and node.value.id in top and node.value.id not in shadow and not isinstance(mod.top[node.value.id], (ast.FunctionDef, ast.ClassDef, ast.AsyncFunctionDef)):
+                alias[node.targets[0].id] = node.value.id
+        for node in body_walk(f.node):
+            if isinstance(node, ast.Call) and isinstance(node.func, ast.Attribute) and node.func.attr in MUTATORS and isinstance(node.func.value, ast.Name) and node.func.value.id in alias:
+                out.setdefault((mod.name, alias[node.func.value.id]), []).append(f"{f.qualname}: {src(node, 60)} (through the local name '{node.func.value.id}')")
+            if isinstance(node, (ast.Assign, ast.AugAssign, ast.Delete)):
+                for t in (node.targets if isinstance(node, (ast.Assign, ast.Delete)) else [node.target]):
+                    if isinstance(t, ast.Subscript) and isinstance(t.value, ast.Name) and t.value.id in alias:
+                        out.setdefault((mod.name, alias[t.value.id]), []).append(f"{f.qualname}: {src(node, 60)} (through the local name '{t.value.id}')")
         for node in body_walk(f.node):
             tgts: List[ast.AST] = []
             if isinstance(node, ast.Assign):
@@ -142,7 +155,7 @@ def _judge_cache(ctx: Ctx, f: FunctionInfo, name: str) -> Tuple[str, str]:
         if isinstance(node, ast.Call) and isinstance(node.func, ast.Attribute) and node.func.attr in ("get", "setdefault") and isinstance(node.func.value, ast.Name) and node.func.value.id == name and node.args:
             keys.append(node.args[0])
     if not keys:
-        return "unknown", "no key expression found"
+        return "bad", f"'{name}' is not looked up by a key here: the function simply reads an object that other calls change, so its answer depends on what was called before"
     ktexts = {ast.unparse(inline(k, f)) for k in keys}
     if len(ktexts) != 1:
         return "unknown", f"several different keys: {sorted(ktexts)}"
